@@ -50,6 +50,8 @@ def run(eng: Engine, ck: Check):
     ck.note(f'SessionInitializedEvent handlers: {sorted(hs)}')
 
     # ---- R-C16-ADVERT
+    from .c13 import unset_parent_clears
+    unset_parent_clears(eng, ck, 'R-C16-ADVERT')       # the branch position sent after login is derived from self.parent
     def row(cls_name, msg, what, cond_ok, data_ok, floor=1):
         h = hs.get(cls_name)
         if h is None:
